@@ -83,6 +83,80 @@ func checkC19(r *Run) {
 		req("a non-empty fingerprint must not be registered yet", `when: `+fp+` != "" => !lookup($0.fingerprints[`+fp+`])#1`))
 	r.RequireOnSuccess("C19-R4", "wallet.Wallets.add", req("refuses an existing file name", "!lookup($0[iface:wallet.Wallet.Filename($1)])#1"))
 	r.RequireStore("C19-R4", lw, "the fingerprint of the new wallet is registered", "$0.fingerprints["+fp+"] := iface:wallet.Wallet.Filename*("+w+")")
+	// the registration happens under exactly the condition of the conflict test (non-empty fingerprint):
+	// the only branch condition between the successful save and the registration is fp != ""
+	if fn := r.fn("C19-R4", lw); fn != nil {
+		ff := r.P.Facts(fn)
+		var saveBlk *ssa.BasicBlock
+		for _, cs := range r.CallSites(fn, "wallet.Save") {
+			saveBlk = cs.Block()
+		}
+		n := 0
+		for _, b := range fn.Blocks {
+			for _, in := range b.Instrs {
+				mu, ok := in.(*ssa.MapUpdate)
+				if !ok || !strings.HasSuffix(ff.Term(mu.Map), ".fingerprints") {
+					continue
+				}
+				n++
+				base := map[string]bool{}
+				if saveBlk != nil {
+					for _, a := range ff.Must(saveBlk) {
+						base[a.S] = true
+					}
+				}
+				var extra []string
+				for _, a := range ff.Must(b) {
+					if base[a.S] || strings.Contains(a.S, "wallet.Save(") || a.S == fp+` != ""` || a.S == `"" != `+fp {
+						continue
+					}
+					extra = append(extra, a.S)
+				}
+				r.Check("C19-R4", lw+": every wallet with a fingerprint is registered once saved (no further condition)", r.P.Pos(mu.Pos()), saveBlk != nil && len(extra) == 0, "registration also depends on: "+trunc(strings.Join(extra, " ; "), 300))
+			}
+		}
+		r.Check("C19-R4", lw+": fingerprint registration sites", "", n == 1, "")
+	}
+	// unloading and bulk loading treat the map symmetrically: delete / insert for every wallet with a fingerprint
+	for _, sym := range []struct{ fn, what string }{{"wallet.Service.UnloadWallet", "delete"}, {"wallet.Service.setWallets", "insert"}} {
+		fn := r.fn("C19-R4", sym.fn)
+		if fn == nil {
+			continue
+		}
+		ff := r.P.Facts(fn)
+		n := 0
+		for _, b := range fn.Blocks {
+			for _, in := range b.Instrs {
+				var key ssa.Value
+				switch x := in.(type) {
+				case *ssa.MapUpdate:
+					if sym.what == "insert" && strings.HasSuffix(ff.Term(x.Map), ".fingerprints") {
+						key = x.Key
+					}
+				case *ssa.Call:
+					if sym.what == "delete" && calleeName(&x.Call) == "delete" && strings.HasSuffix(ff.Term(x.Call.Args[0]), ".fingerprints") {
+						key = x.Call.Args[1]
+					}
+				}
+				if key == nil {
+					continue
+				}
+				n++
+				kt := ff.Term(key)
+				var conds []string
+				for _, a := range ff.Must(b) {
+					if strings.Contains(a.S, "Fingerprint(") && !strings.Contains(a.S, kt+` != ""`) && !strings.Contains(a.S, `"" != `+kt) {
+						conds = append(conds, a.S)
+					}
+					if strings.Contains(a.S, "IsTemp") || strings.Contains(a.S, "IsEncrypted") || strings.Contains(a.S, "Type(") {
+						conds = append(conds, a.S)
+					}
+				}
+				r.Check("C19-R4", sym.fn+": the fingerprint map "+sym.what+" depends only on the fingerprint being non-empty", r.P.Pos(in.Pos()), strings.Contains(kt, "Fingerprint(") && len(conds) == 0, trunc(strings.Join(conds, " ; "), 200))
+			}
+		}
+		r.Check("C19-R4", sym.fn+": fingerprint map "+sym.what+" sites", "", n == 1, "")
+	}
 	r.RequireOnSuccessExcept("C19-R4", "wallet.NewService", []string{"!*.config.EnableWalletAPI"},
 		req("start-up refuses duplicate wallets on disk", "!wallet.Wallets.containsDuplicate(*)#2"),
 		req("start-up refuses empty wallets", "!wallet.Wallets.containsEmpty(*)#1"))
